@@ -559,6 +559,7 @@ def vdi_parent(rng, ctx, depth: int = 2) -> Opened:
     bs = rng.choice([512, 4096, 65536])
     n = rng.randrange(2, 30 if bs <= 4096 else 8)
     layers = []
+    lower = []
     below = None
     size = None
     for level in range(depth):
@@ -578,8 +579,18 @@ def vdi_parent(rng, ctx, depth: int = 2) -> Opened:
         size = meta["size"]  # the disk is as large as its topmost image says
         v = VDI(as_handle(sf.to_bytes()), parent=below) if below is not None else VDI(as_handle(sf.to_bytes()))
         layers.insert(0, layer)
+        if below is not None:
+            lower.append(below)
         below = v
-    return Opened(below, Model(size, layers), info={"depth": depth, "block_size": bs})
+    op = Opened(below, Model(size, layers), info={"depth": depth, "block_size": bs})
+    # the ancestors are stream objects the caller created and still holds: each is left at a position of the caller's choosing,
+    # which reading the child has no business changing
+    op.lower = []
+    for anc in lower:
+        p_ = rng.randrange(0, max(1, anc.size))
+        anc.seek(p_)
+        op.lower.append((anc, p_))
+    return op
 
 
 def open_chain(kind: str, rng, ctx) -> Opened:
